@@ -289,3 +289,29 @@ Example reset_appends_502_before_fix :
   on_backend_reset false true true = RDefault502 /\ on_backend_reset true false true = RDefault502 /\ on_backend_reset true false false = RRetry.
 Proof. repeat split; reflexivity. Qed.
 
+(** 11. Trailer blocks ([pkawa::handle_trailer], executed in-process by the
+    driver).  A trailer block that is accepted was sent with END_STREAM, its
+    decoded size (name + value + 32 per field, RFC 9113 6.5.2) is within
+    min(MAX_HEADER_LIST_SIZE, MAX_TRAILER_BYTES), it has at most
+    [max_header_fields] fields, none of them a pseudo-header or an invalid
+    field, and no more fields are stored than were sent: what one trailer block
+    can make the proxy hold is bounded by 8 KiB whatever the listener allows
+    for a header list. *)
+Theorem trailer_block_bounded :
+  forall max_list maxf es lf fs n,
+    trailer_outcome max_list maxf es lf fs = TOk n ->
+    es = true /\
+    fold_right (fun f s => tfield_size f + s) 0 fs <= N.min max_list MAX_TRAILER_BYTES /\
+    N.of_nat (length fs) <= maxf /\ Forall tclean fs /\ n <= N.of_nat (length fs).
+Proof. exact trailer_accepted_bounded. Qed.
+
+Example trailer_block_bounded_nonvacuous :
+  (* 8192-byte budget: 128 fields of 10+22+32 = 64 octets fit exactly, one more octet does not;
+     the field limit and a pseudo-header are met in wire order *)
+  trailer_outcome 65536 200 true false (repeat (TPlain, 10, 22) 128) = TOk 128 /\
+  trailer_outcome 65536 200 true false (repeat (TPlain, 10, 22) 127 ++ [(TPlain, 10, 23)]) = TErr EnhanceYourCalm /\
+  trailer_outcome 65536 3 true false [(TPlain, 1, 1); (TSpoof, 9, 4); (TPlain, 1, 1); (TPseudo, 7, 3)] = TErr EnhanceYourCalm /\
+  trailer_outcome 65536 200 true true [(TPlain, 1, 1); (TPseudo, 7, 3); (TPlain, 9000, 1)] = TErr ProtocolError /\
+  trailer_outcome 100 200 false false [] = TErr ProtocolError.
+Proof. vm_compute. repeat split; reflexivity. Qed.
+
